@@ -94,7 +94,7 @@ theorem ma_code_eq (m : Msg) : T.ma_code m = some (maCode m) := by
     rw [h2]; apply shlW_of_lt
     have : x % 2 < 2 ^ 1 := by omega
     exact Nat.lt_of_lt_of_le (shl_lt (b := s) this) (Nat.pow_le_pow_right (by decide) (by omega))
-  simp [T.ma_code, maCode, Gen.maBitPositions, Gen.maTopShift, List.zipIdx, hb]
+  simp [T.ma_code, T.ma_code.bit_positions, maCode, Gen.maBitPositions, Gen.maTopShift, List.zipIdx, hb]
 
 
 theorem extract_bit_eq (v b : Nat) : T.extract_bit v b = extractBit v b := rfl
